@@ -158,6 +158,58 @@ def int_lower_bound(op, k):
     return None
 
 
+def quantified(program, t):
+    """For `iter.any(|x| x OP k)` / `iter.all(|x| x OP k)` (also `contains(&k)`): ("exists", iter-or-container term, OP, k) or
+    ("forall", ..) with OP in Eq/Ne and the element on the left - so that `any(|b| b != 0)`, `!all(|b| b == 0)` and
+    `contains(&K)` / `any(|o| o == K)` can be compared.  None when the call is not of that form."""
+    from . import tables as TB
+    t = T.strip(t)
+    if t[0] != "call" or len(t[2]) != 2:
+        return None
+    last = t[1].rsplit("::", 1)[-1]
+    if last == "contains" and ("[T]" in t[1] or "slice" in t[1] or "Vec" in t[1]):
+        k = T.strip(t[2][1])
+        while k[0] in ("ref", "deref"):
+            k = T.strip(k[2] if k[0] == "ref" else k[1])
+        return ("exists", t[2][0], "Eq", k)
+    if last not in ("any", "all") or "Iterator" not in t[1] and "iter" not in t[1]:
+        return None
+    cl = T.strip(t[2][1])
+    if not (cl[0] == "agg" and cl[1] == "closure" and program is not None and cl[2] in program.bodies):
+        return None
+    cb = program.bodies[cl[2]]
+    rets = TB.return_sites(cb, program)
+    if len(rets) != 1:
+        return None
+    r = T.strip(rets[0][2])
+    neg = False
+    while r[0] == "unop" and r[1] == "Not":
+        r, neg = T.strip(r[2]), not neg
+    cs = canon_cond(program, r, not neg, None)
+    if len(cs) != 1:
+        return None
+    c = _norm_cmp(cs[0])
+    if c[0] == "variant":
+        # comparison with a unit enum variant
+        if not T.contains(c[1], lambda x: x[0] == "param" and x[1] >= 1):
+            return None
+        return ("exists" if last == "any" else "forall", t[2][0], "Eq" if c[3] else "Ne", ("variant", c[2]))
+    if c[0] != "cmp" or c[1] not in ("Eq", "Ne") or not c[4]:
+        return None
+    a, b = T.strip(c[2]), T.strip(c[3])
+    if not T.contains(a, lambda x: x[0] == "param" and x[1] >= 1):
+        a, b = b, a
+    if not T.contains(a, lambda x: x[0] == "param" and x[1] >= 1) or T.contains(b, lambda x: x[0] == "param" and x[1] >= 1):
+        return None
+    while a[0] in ("ref", "deref"):
+        a = T.strip(a[2] if a[0] == "ref" else a[1])
+    if a[0] != "param":
+        return None
+    while b[0] in ("ref", "deref"):
+        b = T.strip(b[2] if b[0] == "ref" else b[1])
+    return ("exists" if last == "any" else "forall", t[2][0], c[1], b)
+
+
 def canon_conds(program, conds):
     """Normalise controls() output into canonical predicates:
        ('variant', place_term, VariantName, polarity)
@@ -226,6 +278,22 @@ def canon_cond(program, atom, label, blk=None):
                 return l
             label = tr(label)
             place = T.strip(place[2][0])
+        # `s.first_chunk::<N>()` is Some exactly when `s.len() >= N`
+        if place[0] == "call" and "::first_chunk::<" in place[1] and len(place[2]) == 1:
+            lab = label[1][0] if isinstance(label, tuple) and label and label[0] == "else" and len(label[1]) == 1 else label
+            if lab in ("Some", "None"):
+                n = int(place[1].rsplit("::<", 1)[1].rstrip(">"))
+                ln = ("call", "core::slice::<impl [T]>::len", (place[2][0],))
+                return [("cmp", "Ge" if lab == "Some" else "Lt", ln, ("const", n, None, "usize"), True, blk)]
+        # `s.get(a..b)` (constant a <= b) is Some exactly when `s.len() >= b`
+        if place[0] == "call" and place[1].endswith("::get") and ("[T]" in place[1] or "slice" in place[1]) and len(place[2]) == 2:
+            r_ = T.strip(place[2][1])
+            lab = label[1][0] if isinstance(label, tuple) and label and label[0] == "else" and len(label[1]) == 1 else label
+            if r_[0] == "agg" and (r_[2] or "").endswith("ops::Range") and len(r_[4]) == 2 and lab in ("Some", "None"):
+                a_, b_ = T.fold_int(r_[4][0]), T.fold_int(r_[4][1])
+                if a_ is not None and b_ is not None and a_ <= b_:
+                    ln = ("call", "core::slice::<impl [T]>::len", (place[2][0],))
+                    return [("cmp", "Ge" if lab == "Some" else "Lt", ln, ("const", b_, None, "usize"), True, blk)]
         if isinstance(label, tuple) and label and label[0] == "else":
             rest = label[1]
             if len(rest) == 1:
